@@ -40,6 +40,11 @@ func init() {
 				}
 			}
 			all := append(append([]*ssa.Function{}, fns...), serve...)
+			// helpers the receive loops call (a buffer helper extracted from Serve, say)
+			_, fromServe := ReachFirstParty(c.P, serve)
+			for _, f := range fromServe {
+				all = appendUniqueFn(all, f)
+			}
 			// the allocator API is part of what handlers rely on, whether or not a handler calls Free today
 			inScope := map[*ssa.Function]bool{}
 			for _, f := range all {
